@@ -46,11 +46,24 @@ func runRules(l *Loaded, tier string, rules []string) (*Ctx, error) {
 	return c, nil
 }
 
+// runEdges records which rule function started which other one (aliases included), so that the
+// sweep can tell which obligations a property's own rule list produces.
+var runEdges = map[string]map[string]bool{}
+
 func (c *Ctx) run(id string) {
+	if parent := c.r.producer; parent != "" {
+		if runEdges[parent] == nil {
+			runEdges[parent] = map[string]bool{}
+		}
+		runEdges[parent][id] = true
+	}
 	if c.done[id] {
 		return
 	}
 	c.done[id] = true
+	saved := c.r.producer
+	c.r.producer = id
+	defer func() { c.r.producer = saved }()
 	f := ruleTable[id]
 	if f == nil {
 		c.r.undecided(id, "rule not implemented", "-", "internal: rule "+id+" is not registered")
@@ -86,6 +99,7 @@ func main() {
 	explain := flag.String("explain", "", "print a replay file and re-evaluate its obligation")
 	manifest := flag.Bool("manifest", false, "print MANIFEST.json generated from the property table")
 	selftest := flag.Bool("selftest", false, "run canaries, mutants and variants of the checker itself")
+	sweep := flag.Bool("sweep", false, "development aid: run every rule once and print which properties would report (one line)")
 	flag.StringVar(&repoDir, "repo", repoDir, "repository root")
 	flag.StringVar(&verifDir, "verif", verifDir, "verif root")
 	flag.Parse()
@@ -110,6 +124,8 @@ func main() {
 		os.Exit(doExplain(*explain, *tier))
 	case *selftest:
 		os.Exit(doSelftest(*tier, *rulesFlag))
+	case *sweep:
+		os.Exit(doSweep(*tier))
 	case *rulesFlag != "":
 		os.Exit(doDebugRules(strings.Split(*rulesFlag, ","), *tier, *dump))
 	case *prop == "":
@@ -143,6 +159,83 @@ func doDebugRules(rules []string, tier string, dump bool) int {
 		fmt.Printf("obligations=%d\n", len(c.r.Obls))
 	}
 	return 0
+}
+
+// doSweep runs all rules once and prints one line: the properties whose check would exit 1 and
+// the first few non-discharged obligations. Used by tools/mutsweep to evaluate many changed trees.
+func doSweep(tier string) int {
+	known, err := loadKnown(filepath.Join(verifDir, "known_findings.json"))
+	if err != nil {
+		fmt.Println("SWEEP error known_findings:", err)
+		return 2
+	}
+	all := &propSpec{ID: "*", Level: "other"}
+	for r := range ruleTable {
+		all.Rules = append(all.Rules, r)
+	}
+	sort.Strings(all.Rules)
+	obls, _, _, _, _, _, err := evaluate(all, tier, nil)
+	if err != nil {
+		fmt.Printf("SWEEP load-error %s\n", strings.ReplaceAll(err.Error(), "\n", " "))
+		return 3
+	}
+	props := map[string]bool{}
+	rules := map[string]bool{}
+	var first []string
+	for _, o := range obls {
+		if o.Status == Discharged {
+			continue
+		}
+		hit := false
+		for _, p := range o.Props {
+			if propTable[p] == nil || !producersOf(p)[o.Producer] {
+				continue
+			}
+			if o.Status == Violated && known.match(p, o) != nil {
+				continue
+			}
+			props[p] = true
+			hit = true
+		}
+		if hit {
+			rules[o.Rule] = true
+			if len(first) < 3 {
+				first = append(first, fmt.Sprintf("%s %s %s at %s: %s", o.Rule, o.Status, o.Key, o.Pos, o.Detail))
+			}
+		}
+	}
+	if len(props) == 0 {
+		fmt.Println("SWEEP silent")
+		return 0
+	}
+	fmt.Printf("SWEEP props=%s rules=%s || %s\n", strings.Join(sortedKeys(props), ","), strings.Join(sortedKeys(rules), ","), strings.ReplaceAll(strings.Join(first, " || "), "\n", " "))
+	return 1
+}
+
+var producersMemo = map[string]map[string]bool{}
+
+// producersOf is the set of rule functions a property's rule list starts, directly or through
+// another rule.
+func producersOf(p string) map[string]bool {
+	if m, ok := producersMemo[p]; ok {
+		return m
+	}
+	m := map[string]bool{}
+	var visit func(string)
+	visit = func(r string) {
+		if m[r] {
+			return
+		}
+		m[r] = true
+		for k := range runEdges[r] {
+			visit(k)
+		}
+	}
+	for _, r := range propTable[p].Rules {
+		visit(r)
+	}
+	producersMemo[p] = m
+	return m
 }
 
 type merged struct {
